@@ -10,6 +10,7 @@ import WrglModel.Model.Merge
 import WrglModel.Spec.Merge
 import WrglModel.Lemmas.C05
 import WrglModel.Lemmas.C05Cols
+import WrglModel.Lemmas.C05CellCols
 import WrglModel.Gen.Facts
 namespace Wrgl
 
@@ -96,6 +97,48 @@ theorem C05_unresolve_table_is_model (isAdded isRemoved rem : Bool) (a m b : Fin
     tableFires (cellAtom e) Facts.resolveUnresolvePaths = some e.stepUnresolves := by
   revert isAdded isRemoved rem a m b
   decide
+
+/-- `tryResolve`'s computation of one column of one key IS `cellFold` over the distinct rows of the
+    key, each tagged with "this layer added the column" / "this layer removed the column". -/
+theorem C05_tryResolve_cell_is_cellFold (baseCell : Option Bytes) (rem0 : Bool) (rows : List (Nat × Row))
+    (added removed : Nat → Nat → Bool) (i : Nat) :
+    rows.foldl (fun st (lr : Nat × Row) => cellStep baseCell (added lr.1 i) (removed lr.1 i) ((lr.2[i]?).getD []) st)
+      { add := none, mod := none, rem := rem0, val := baseCell.getD [], unresolved := false } =
+    cellFold baseCell rem0 (rows.map (fun lr => (added lr.1 i, removed lr.1 i, (lr.2[i]?).getD []))) := by
+  unfold cellFold; rw [List.foldl_map]
+
+/-- Column-changing branches, a column of the BASE table, any number of layers: the decision chain
+    reports a conflict iff the column (or the whole row) was removed by one layer and the cell
+    changed by another, or two layers changed the cell differently; otherwise it yields the changed
+    value if there is one, else the empty cell when a layer removed the column, else the base value. -/
+theorem C05_base_column_rule (bc : Option Bytes) (rem0 : Bool) (layers : List (Bool × Bytes))
+    (hrm : ∀ l ∈ layers, l.1 = true → l.2 = []) :
+    let st := cellFold bc rem0 (layers.map (fun l => (false, l.1, l.2)))
+    let changed := changedVals bc ((layers.filter (fun l => !l.1)).map (·.2))
+    let removed := rem0 || layers.any (·.1)
+    (st.unresolved = true ↔ (removed = true ∧ changed ≠ []) ∨ changed.length ≥ 2) ∧
+    (st.unresolved = false →
+      st.val = (match changed with
+        | v :: _ => v
+        | [] => if layers.any (·.1) then [] else bc.getD [])) :=
+  cellFold_base_column bc rem0 layers hrm
+
+/-- Column-changing branches, a column NOT in the base (added by some layers): a conflict iff two
+    layers added different values, otherwise the added value (empty if no layer has the column).
+    `hrem` is what `tryResolve` guarantees: "a layer lacks the row" is only set when the base has it. -/
+theorem C05_added_column_rule (bc : Option Bytes) (hbc : bc = none ∨ bc = some [])
+    (rem0 : Bool) (hrem : bc = none → rem0 = false)
+    (layers : List (Bool × Bytes)) (hlack : ∀ l ∈ layers, l.1 = false → l.2 = []) :
+    let st := cellFold bc rem0 (layers.map (fun l => (l.1, false, l.2)))
+    let addedVals := ((layers.filter (·.1)).map (·.2)).eraseDups
+    (st.unresolved = true ↔ addedVals.length ≥ 2) ∧
+    (st.unresolved = false → st.val = addedVals.headD []) :=
+  cellFold_added_column_reachable bc hbc rem0 hrem layers hlack
+
+/-- non-vacuity: one layer removes the column, another changes the cell — a conflict; two layers
+    add the same value to a new column — that value -/
+example : (cellFold (some [1]) false [(false, true, []), (false, false, [2])]).unresolved = true := by decide
+example : (cellFold (some []) false [(true, false, [5]), (true, false, [5]), (false, false, [])]).val = [5] := by decide
 
 /-- non-vacuity -/
 example : TableOK 2 [0] [[[1], [2]], [[3], [4]]] := by
